@@ -4,8 +4,8 @@ Every mutating call whose target lies under the watched root is an *event*: ``mk
 ``unlink``, ``rmdir``, ``rmtree``, ``create`` (a file opened for writing, or the destination of ``shutil.copyfile``) and
 ``write`` (one ``write`` call on such a file, or the payload of a ``copyfile``). Events are streamed to ``emit`` *before*
 they are performed. With a crash point ``k`` the process ``os._exit(77)``s instead of performing event ``k``; if event
-``k`` is a write, the first ``j`` bytes are persisted first. Every completed write is flushed immediately, so "written but
-still buffered" is represented by the crash point ``j = 0``.
+``k`` is a write, the first ``j`` bytes are persisted first. Data written to a file object stays in process memory until
+the file is flushed or closed (as with Python's buffered writers), so a death between ``write()`` and ``close()`` loses it.
 """
 import builtins
 import io
@@ -66,25 +66,45 @@ def jbytes(mode: str, size: int) -> int:
 
 
 class _Proxy:
-    """File object whose writes are crash points."""
+    """File object whose writes are crash points.
+
+    Like Python's own buffered writers it keeps written data in process memory until ``flush``/``close`` - a process
+    death in between loses it (small metadata files never exceed the buffer). The *write* event (and its partial
+    variants) therefore happens at flush time, which is where the bytes really reach the file."""
 
     def __init__(self, inj, real, path):
         self._inj = inj
         self._real = real
         self._path = path
+        self._pending = []
 
     def write(self, data):
-        return self._inj.write_event(self._real, self._path, data)
+        if not isinstance(data, str):
+            data = bytes(data)  # memoryview etc.
+        self._pending.append(data)
+        return len(data)
 
     def writelines(self, lines):
         for line in lines:
             self.write(line)
 
+    def flush(self):
+        if self._pending:
+            data = self._pending[0][:0].join(self._pending)
+            self._pending = []
+            self._inj.write_event(self._real, self._path, data)
+        self._real.flush()
+
+    def close(self):
+        if not self._real.closed:
+            self.flush()
+        self._real.close()
+
     def __enter__(self):
         return self
 
     def __exit__(self, *exc):
-        self._real.close()
+        self.close()
         return False
 
     def __iter__(self):
